@@ -447,5 +447,8 @@ pub fn run(cfg: &Cfg) {
         };
         case(&mut sink, &mut model, &s, if normalized { "random-norm" } else { "random-odd" });
     }
+    // ---- the rules inside whole verifications: which links the rules of a step or an inspection are
+    //      applied to (those of ALL steps and inspections), decided as the specification decides
+    crate::e2e_props::rules_lane(&mut sink, &mut model, &mut r, if cfg.thorough { 500 } else { 60 });
     sink.finish(&cfg.out, serde_json::json!({"exhaustive_scope": scope}));
 }
